@@ -959,6 +959,20 @@ Proof.
     destruct next as [[]|]; apply Hcase.
 Qed.
 
+Lemma run_armed_spec fuel : forall ran w (Q : result unit -> world -> Prop),
+  SI w -> (forall r w', SE w w' -> Q r w') -> wp (run_armed fuel ran) Q w.
+Proof.
+  induction fuel as [|f IH]; intros ran w Q HS HQ; cbn [run_armed].
+  { wp_prim. apply HQ. split; [exact HS | reflexivity]. }
+  assert (HSE : SE w w) by (split; [exact HS | reflexivity]).
+  do 2 wp_prim. wp_case; [wp_prim; apply HQ; exact HSE|].
+  wp_case; [|wp_prim; apply HQ; exact HSE].
+  wp_case; [wp_prim; apply HQ; exact HSE|].
+  wp_prim. eapply run_action_spec; [exact HS|]. intros r w2 H2 _. destruct r; cbv beta iota.
+  - apply IH; [apply H2|]. intros r3 w3 H3. apply HQ. eapply SE_trans; eauto.
+  - apply HQ. exact H2.
+Qed.
+
 Lemma finish_step_spec x w (Q : result unit -> world -> Prop) :
   SI w -> (forall r w', SE w w' -> stepping w' = false -> Q r w') -> wp (finish_step x) Q w.
 Proof.
@@ -978,16 +992,24 @@ Proof.
   assert (Hk : forall next w1, SE w w1 ->
      wp (bind get (fun w => if is_terminated w then ret tt
                             else match intr w with
-                                 | Some a => run_action a next
-                                 | None => transition next
+                                 | Some a => bind (run_action a next) (fun _ => run_armed armed_fuel (Some a))
+                                 | None => bind (transition next) (fun _ => run_armed armed_fuel None)
                                  end))
         (fun r s' => wp (bind (modify (fun w => w <| stepping := false |>)) (fun _ => set_interrupt_action None))
            (fun r2 s'' => match r2 with Ok _ => Q r s'' | Err e => Q (Err e) s'' end) s') w1).
   { intros next w1 H1. pose proof H1 as [[I1 T1] E1]. do 2 wp_prim. wp_case; [wp_prim; apply Hfin; exact H1|].
+    assert (Harm : forall ran w2, SE w w2 ->
+              wp (run_armed armed_fuel ran)
+                 (fun r s' => wp (bind (modify (fun w => w <| stepping := false |>)) (fun _ => set_interrupt_action None))
+                    (fun r2 s'' => match r2 with Ok _ => Q r s'' | Err e => Q (Err e) s'' end) s') w2).
+    { intros ran w2 H2. apply run_armed_spec; [apply H2|]. intros r3 w3 H3. apply Hfin. eapply SE_trans; eauto. }
     wp_case.
-    - eapply run_action_spec; [split; assumption|]. intros r w2 H2 _. apply Hfin. eapply SE_trans; eauto.
-    - eapply transition_keeps; [apply B_refl; exact I1|]. intros r w2 H2. apply Hfin.
-      eapply SE_trans; [exact H1|]. apply SE_of_B; [split; assumption | exact H2]. }
+    - wp_prim. eapply run_action_spec; [split; assumption|]. intros r w2 H2 _.
+      assert (H12 : SE w w2) by (eapply SE_trans; eauto).
+      destruct r; cbv beta iota; [apply Harm; exact H12 | apply Hfin; exact H12].
+    - wp_prim. eapply transition_keeps; [apply B_refl; exact I1|]. intros r w2 H2.
+      assert (H12 : SE w w2) by (eapply SE_trans; [exact H1|]; apply SE_of_B; [split; assumption | exact H2]).
+      destruct r; cbv beta iota; [apply Harm; exact H12 | apply Hfin; exact H12]. }
   assert (HSE : SE w w) by (split; [exact HS | reflexivity]).
   wp_prim. destruct x.
   - wp_prim. apply Hk; exact HSE.
